@@ -5,7 +5,28 @@
 //! and removes entries with zero multiplicity.
 
 use super::batch::Update;
-use crate::value::Tuple;
+use crate::value::{Tuple, Value};
+use std::cmp::Ordering;
+
+/// Total order on tuples for sorting during consolidation and recovery.
+///
+/// `Value::cmp` orders floats with `partial_cmp(..).unwrap_or(Equal)`, so NaN compares equal to
+/// every float. That is not a total order, and the standard sort panics when it detects one
+/// ("user-provided comparison function does not correctly implement a total order") - which
+/// would make a store holding NaN next to other floats impossible to compact or to reopen.
+/// Floats are ordered by `f64::total_cmp` here, which also agrees with `Value`'s bitwise `Eq`.
+pub(crate) fn total_cmp_tuples(a: &Tuple, b: &Tuple) -> Ordering {
+    for (x, y) in a.values().iter().zip(b.values().iter()) {
+        let ord = match (x, y) {
+            (Value::Float64(p), Value::Float64(q)) => p.total_cmp(q),
+            _ => x.cmp(y),
+        };
+        if ord != Ordering::Equal {
+            return ord;
+        }
+    }
+    a.arity().cmp(&b.arity())
+}
 
 /// Consolidate updates in place: sum diffs for identical (data, time) pairs.
 ///
@@ -35,7 +56,7 @@ pub fn consolidate(updates: &mut Vec<Update>) {
     }
 
     // Sort by (data, time) to group identical updates together
-    updates.sort_by(|a, b| match a.data.cmp(&b.data) {
+    updates.sort_by(|a, b| match total_cmp_tuples(&a.data, &b.data) {
         std::cmp::Ordering::Equal => a.time.cmp(&b.time),
         other => other,
     });
@@ -76,7 +97,7 @@ pub fn consolidate_to_current(updates: &mut Vec<Update>) {
     }
 
     // Sort by data only
-    updates.sort_by(|a, b| a.data.cmp(&b.data));
+    updates.sort_by(|a, b| total_cmp_tuples(&a.data, &b.data));
 
     // Merge adjacent updates with same data by summing diffs
     let mut write_idx = 0;
@@ -136,7 +157,7 @@ pub fn fold_to_current_set(updates: &[Update]) -> Vec<Tuple> {
         .filter(|u| u.diff > 0)
         .map(|u| u.data.clone())
         .collect();
-    tuples.sort();
+    tuples.sort_by(total_cmp_tuples);
     tuples
 }
 
